@@ -1,6 +1,7 @@
 /- Driver for `kind = "store"` cases: runs an operation sequence on the logical store model. -/
 import Driver.Common
 import AskarModel.Model.Store
+import AskarModel.Model.Session
 import AskarModel.Model.Like
 
 open Lean Askar Askar.Wql Askar.Store
@@ -75,49 +76,35 @@ structure SessSt where
   deriving Inhabited
 
 structure St where
-  db : Db
+  tx : TxStore
   h : Handle
   now : Int
   page : Nat
-  wtxn : Option (Nat × Db) := none
   sessions : List (Nat × SessSt) := []
   active : String
+
+def St.db (st : St) : Db := st.tx.db
 
 def St.getSess (st : St) (i : Nat) : Option SessSt := (st.sessions.find? (·.1 == i)).map (·.2)
 def St.setSess (st : St) (i : Nat) (s : SessSt) : St :=
   { st with sessions := (i, s) :: st.sessions.filter (·.1 != i) }
 def St.delSess (st : St) (i : Nat) : St := { st with sessions := st.sessions.filter (·.1 != i) }
 
-/-- the database a session's statements see -/
-def St.view (st : St) (i : Nat) : Db :=
-  match st.wtxn with
-  | some (j, copy) => if i == j then copy else st.db
-  | none => st.db
-
-def St.lockedByOther (st : St) (i : Nat) : Bool :=
-  match st.wtxn with
-  | some (j, _) => i != j
-  | none => false
-
-/-- apply a write of session `i` -/
-def St.write (st : St) (i : Nat) (db' : Db) : St :=
-  match st.wtxn with
-  | some (j, _) => if i == j then { st with wtxn := some (j, db') } else st
-  | none => { st with db := db' }
-
 /-- `make_active`: acquire, start the transaction (write lock) if transactional, resolve the key. -/
-def activate (st : St) (i : Nat) : Except Err (St × Sess) :=
+def activate (st : St) (i : Nat) : St × Except Err Sess :=
   match st.getSess i with
-  | none => .error .input
+  | none => (st, .error .input)
   | some ss =>
     match ss.sess with
-    | some s => .ok (st, s)
+    | some s => (st, .ok s)
     | none =>
-      if ss.txn && st.lockedByOther i then .error .backend else
-      let st := if ss.txn && st.wtxn.isNone then { st with wtxn := some (i, st.db) } else st
-      match resolve (st.view i) st.h ss.profile with
-      | .ok (s, h) => .ok ({ st with h := h }.setSess i { ss with sess := some s }, s)
-      | .error e => .error e
+      if ss.txn && st.tx.lockedByOther i then (st, .error .backend) else
+      -- a transactional session begins here (lazily, at its first call); the transaction stays open
+      -- (and the write lock held) even if the profile lookup then fails, until the session ends
+      let st := if ss.txn && st.tx.wtxn.isNone then { st with tx := { st.tx with wtxn := some (i, st.tx.db) } } else st
+      match resolve (st.tx.view i) st.h ss.profile with
+      | .ok (s, h) => ({ st with h := h }.setSess i { ss with sess := some s }, .ok s)
+      | .error e => (st, .error e)
 
 def kindOpt (j : Json) : Option Kind := natOpt j "k"
 
@@ -146,30 +133,25 @@ def stepOp (st : St) (j : Json) : St × Json :=
   | "session" => (st.setSess i { profile := (strOpt j "profile").getD st.active, txn := bool! j "txn" }, "ok")
   | "tick" => ({ st with now := st.now + int! j "ms" }, "ok")
   | "create_profile" =>
-    if st.wtxn.isSome then (st, jerr "Backend") else
+    if st.tx.wtxn.isSome then (st, jerr "Backend") else
     match createProfile st.db st.h (str! j "name") with
-    | .ok (db, h) => ({ st with db := db, h := h }, Json.mkObj [("name", .str (str! j "name"))])
+    | .ok (db, h) => ({ st with tx := { st.tx with db := db }, h := h }, Json.mkObj [("name", .str (str! j "name"))])
     | .error e => (st, jerr e.name)
   | "remove_profile" =>
-    if st.wtxn.isSome then (st, jerr "Backend") else
+    if st.tx.wtxn.isSome then (st, jerr "Backend") else
     let ((db, h), r) := removeProfile st.db st.h (str! j "name") evictOnRemove
-    ({ st with db := db, h := h }, Json.mkObj [("removed", .bool r)])
+    ({ st with tx := { st.tx with db := db }, h := h }, Json.mkObj [("removed", .bool r)])
   | "list_profiles" =>
     (st, .arr ((sortBy (fun a b => Bytes.lt (utf8 a) (utf8 b)) (st.db.profiles.map (·.name))).map Json.str).toArray)
   | "scan" => sessionlessScan st j
-  | "commit" =>
-    match st.wtxn with
-    | some (k, copy) => if k == i then ({ st with db := copy, wtxn := none }.delSess i, "ok") else (st.delSess i, "ok")
-    | none => (st.delSess i, "ok")
-  | "rollback" | "drop" =>
-    match st.wtxn with
-    | some (k, _) => if k == i then ({ st with wtxn := none }.delSess i, "ok") else (st.delSess i, "ok")
-    | none => (st.delSess i, "ok")
+  | "commit" => ({ st with tx := (TxStore.step sqliteLike st.page st.now st.tx (.commit i)).1 }.delSess i, "ok")
+  | "rollback" | "drop" => ({ st with tx := (TxStore.step sqliteLike st.page st.now st.tx (.rollback i)).1 }.delSess i, "ok")
   | _ =>
     match activate st i with
-    | .error e => (st, jerr e.name)
-    | .ok (st, s) =>
-      let db := st.view i
+    | (st, .error e) => (st, jerr e.name)
+    | (st, .ok s) =>
+      let db := st.tx.view i
+      let isTxn := (st.getSess i).map (·.txn) |>.getD false
       let k := nat! j "k"
       if op == "ping" then
         match ping db s with
@@ -188,10 +170,8 @@ def stepOp (st : St) (j : Json) : St × Json :=
       match mop with
       | none => (st, jerr "BadOp")
       | some mop =>
-        let isWrite := op == "insert" || op == "replace" || op == "remove" || op == "remove_all"
-        if isWrite && st.lockedByOther i then (st, jerr "Backend") else
-        let (db', out) := step sqliteLike st.page st.now s db mop
-        let st := if isWrite then st.write i db' else st
+        let (tx', out) := TxStore.step sqliteLike st.page st.now st.tx (.stmt i isTxn s mop)
+        let st := { st with tx := tx' }
         match out with
         | .ok => (st, "ok")
         | .err e => (st, jerr e.name)
@@ -208,7 +188,7 @@ def stepOp (st : St) (j : Json) : St × Json :=
 def runCase (j : Json) : Json :=
   let profile := (strOpt j "profile").getD "default"
   let st0 : St := {
-    db := { profiles := [⟨1, profile, 0⟩] }, h := { cache := [(profile, 1, 0)], nextKey := 1 },
+    tx := { db := { profiles := [⟨1, profile, 0⟩] } }, h := { cache := [(profile, 1, 0)], nextKey := 1 },
     now := int! j "now", page := (natOpt j "page").getD 32, active := profile }
   let (_, outs) := (arr! j "ops").foldl (fun (acc : St × Array Json) op =>
     let (st', o) := stepOp acc.1 op
